@@ -7,6 +7,7 @@ mod gen;
 mod layout;
 mod mon;
 mod prog;
+mod progsrc;
 
 use common::*;
 use std::time::Instant;
@@ -22,6 +23,15 @@ fn main() {
         usage();
     }
     install_silent_panic_hook();
+    if args[1] == "lex" {
+        let t = std::fs::read_to_string(&args[2]).unwrap();
+        let mut comments = vec![];
+        for item in solang_parser::lexer::Lexer::new(&t, 0, &mut comments) {
+            println!("{:?}", item);
+        }
+        println!("parse: {:?}", solang_parser::parse(&t, 0).map(|_| ()));
+        return;
+    }
     if args[1] == "worker" {
         std::process::exit(mon::worker::main(&args[2..]));
     }
